@@ -122,4 +122,5 @@ let () =
   port "fill_text" (fun r ->
     let mode = wrap_mode_of_int (rd_int r) in let w = rd_z r in let ic = rd_z r in
     let extra = rd_str r in let empty = rd_str r in let t = rd_str r in
-    wr_m wr_str (fill_text t mode w extra empty ic))
+    wr_m wr_str (fill_text t mode w extra empty ic));
+  port "split_frontmatter" (fun r -> let (a, b) = split_frontmatter (rd_str r) in wr_str a; wr_str b)
